@@ -506,6 +506,21 @@ def run(ctx, only=None):
         obs_ = [G.rand_observable(rng, rows, n, r)[0] for _ in range(3)]
         probe('StabilizerState.expect(PauliList)', lambda: [int(v) for v in impl.state(rows, r).expect(impl.plist(obs_, n))],
               lambda: [ival(v) for v in tstate(rows, r).expect(tlist(obs_, n)).tolist()], (rows, r, obs_))
+        # the batched entry point (torch only): a list of states of one rank against a list, an operator with every phase, a polynomial
+        from torchclifford.stabilizer import vectorizable_expct as _vex
+        rows2 = G.rand_tableau(rng, n, r)[0]
+        sts_ = [rows, rows2, rows]
+        probe('vectorizable_expct(PauliList)', lambda: [[int(v) for v in impl.state(rw, r).expect(impl.plist(obs_, n))] for rw in sts_],
+              lambda: [[ival(v) for v in row_] for row_ in _vex([tstate(rw, r) for rw in sts_], tlist(obs_, n)).tolist()], (sts_, r, obs_))
+        for k in range(4):
+            Pq = (Pk[0], k)
+            probe('vectorizable_expct(Pauli)', lambda: [complex(impl.state(rw, r).expect(impl.pauli(Pq))) for rw in sts_],
+                  lambda: [complex(v) for v in _vex([tstate(rw, r) for rw in sts_], tpauli(Pq)).tolist()], (sts_, r, Pq),
+                  cmp=lambda a_, b_: len(a_) == len(b_) and all(abs(x_ - y_) < 1e-5 for x_, y_ in zip(a_, b_)))
+        terms_v = [((G.rand_observable(rng, rows, n, r)[0][0], rng.randrange(4)), complex(rng.choice([1, -2, 0.5])) * rng.choice([1, 1j])) for _ in range(3)]
+        probe('vectorizable_expct(PauliPolynomial)', lambda: [complex(impl.state(rw, r).expect(impl.poly(terms_v))) for rw in sts_],
+              lambda: [complex(v) for v in _vex([tstate(rw, r) for rw in sts_], tpoly(terms_v)).tolist()], (sts_, r, terms_v),
+              cmp=lambda a_, b_: len(a_) == len(b_) and all(abs(x_ - y_) < 1e-5 for x_, y_ in zip(a_, b_)))
         if n <= 3:
             probe('StabilizerState.to_qutip', lambda: np.round(tq(impl.state(rows, r).to_qutip()), 6).tolist(), lambda: np.round(tq(tstate(rows, r).to_qutip()), 6).tolist(), (rows, r))
     # ---- entropy on many (state, region) pairs, small N (the recorded real-rank finding needs larger matrices), generators re-mixed
@@ -529,6 +544,109 @@ def run(ctx, only=None):
             arg = tuple(arg)
         probe('StabilizerState.entropy', lambda: int(impl.state(rows, r).entropy(arg)), lambda: ival(tstate(rows, r).entropy(arg)), (rows, r, arg),
               when_pred=lambda a_, b_: 'explained-by-real-rank-in-torch-z2rank' if (not isinstance(b_, str) and _entropy_real_rank(rows, r, n, reg) == b_) else '')
+    # ---- a copy of an operator taken out of a list or map stays what it was when the list is rewritten afterwards (embedding a small map,
+    #      overwriting rows and phases through the public arrays); a copy of a circuit takes further gates like the original
+    for _ in range(nx):
+        n = rng.choice([2, 3, 4])
+        A = G.rand_map_ops(rng, n)
+        m, idx = G.rand_mask(rng, n)
+        Ms = G.rand_map_ops(rng, len(idx))
+        k = rng.randrange(2 * n)
+
+        def cp_hist(side, how):
+            mp = impl.cmap(A) if side == 'py' else tmap(A)
+            cpy = mp[k].copy()
+            if how == 'embed':
+                mp.embed(impl.cmap(Ms) if side == 'py' else tmap(Ms), np.array(m) if side == 'py' else torch.tensor(m))
+            elif how == 'write':
+                mp.ps[k] = (mp.ps[k] + 2) % 4
+                mp.gs[k, 0] = 1 - mp.gs[k, 0]
+            else:
+                mp.ps[:] = 2
+            return impl.ops_of(cpy) if side == 'py' else t_ops(cpy)
+        for how in ('embed', 'write', 'fill'):
+            probe('Pauli.copy (taken from a list that is rewritten afterwards)', lambda: cp_hist('py', how), lambda: cp_hist('t', how), (A, k, how, Ms, m))
+        n6 = n + 1
+        prog6 = CU.rand_program(rng, n, rng.randrange(1, 4), kinds=('gen', 'fmap'))
+        extra6 = CU.shift_gate(CU.rand_program(rng, 2, 1, kinds=('gen',))[0], n - 1)      # touches qubit n, beyond the circuit so far
+        if n not in extra6['qubits']:
+            continue
+        Qs6 = [G.rand_op(rng, n6) for _q in range(3)]
+
+        def tgate6(d):
+            g = TCI.CliffordGate(*d.get('order', d['qubits']))
+            if d['kind'] == 'gen':
+                g.set_generator(tpauli(d['gen']))
+            else:
+                g.set_forward_map(tmap(d['F']))
+            return g
+
+        def grow(side, compiled):
+            if side == 'py':
+                c = CI.CliffordCircuit(n6)
+                for d in prog6 + [extra6]:
+                    c.take(CU.impl_gate(impl, d))
+                lst = impl.plist(Qs6)
+            else:
+                c0 = TCI.CliffordCircuit()          # the register is whatever the gates need
+                for d in prog6:
+                    c0.take(tgate6(d))
+                c = c0.copy()
+                c.take(tgate6(extra6))
+                lst = tlist(Qs6, n6)
+            if compiled:
+                c.compile()
+            c.forward(lst)
+            return (impl.ops_of(lst) if side == 'py' else t_ops(lst)), int(c.N)
+        for compiled in (False, True):
+            probe('CliffordCircuit.copy (extended afterwards)', lambda: grow('py', compiled), lambda: grow('t', compiled), (prog6, extra6, Qs6, compiled))
+    # ---- regions given as boolean masks (numpy mask for pyclifford, torch mask for the port)
+    for _ in range(nx * 3):
+        n = rng.choice([2, 3, 4, 4, 5])
+        rows, r = G.rand_tableau(rng, n, rng.choice([0, 1, 1, 2, None]))
+        r = min(r, n)
+        bm = [rng.random() < 0.5 for _q in range(n)]
+        reg = [q_ for q_ in range(n) if bm[q_]]
+        probe('StabilizerState.entropy', lambda: int(impl.state(rows, r).entropy(np.array(bm, dtype=bool))), lambda: ival(tstate(rows, r).entropy(torch.tensor(bm, dtype=torch.bool))),
+              ('bool-mask', rows, r, bm),
+              when_pred=lambda a_, b_: 'explained-by-real-rank-in-torch-z2rank' if (not isinstance(b_, str) and _entropy_real_rank(rows, r, n, reg) == b_) else '')
+    # ---- large grids of string pairs (more than 4096 pairs, sizes that are not multiples of a block), products of long polynomials
+    for L1, L2 in ([(70, 70), (100, 45)] if ctx.tier == 'quick' else [(70, 70), (100, 45), (129, 33), (64, 65), (300, 17), (5000, 1), (1, 4099)]):
+        n = rng.choice([3, 4, 5])
+        A_ = np.array([[rng.randrange(2) for _ in range(2 * n)] for _ in range(L1)], dtype=np.int_)
+        B_ = np.array([[rng.randrange(2) for _ in range(2 * n)] for _ in range(L2)], dtype=np.int_)
+        probe('ipow_product', lambda: [int(U.ipow(a, b)) for a in A_ for b in B_],
+              lambda: [ival(v) for v in TU.ipow_product(torch.tensor(A_, dtype=F), torch.tensor(B_, dtype=F)).reshape(-1).tolist()], ('grid', L1, L2, n))
+        if L1 * L2 <= 5000:
+            ta_ = [((O.from_gp(g_, 0)[0], rng.randrange(4)), complex(rng.choice([1, -1, 2]))) for g_ in A_.tolist()]
+            tb_ = [((O.from_gp(g_, 0)[0], rng.randrange(4)), complex(rng.choice([1, -1, 2]))) for g_ in B_.tolist()]
+            pa_ = lambda p: cmap_of(np.asarray(p.gs), np.asarray(p.ps), np.asarray(p.cs))
+            tq_ = lambda p: cmap_of(p.gs.tolist(), p.ps.tolist(), p.cs.tolist())
+            probe('PauliPolynomial.__matmul__', lambda: pa_(impl.poly(ta_) @ impl.poly(tb_)), lambda: tq_(tpoly(ta_) @ tpoly(tb_)), ('long', L1, L2, n), cmp=close_maps)
+    # ---- sums on wide registers whose strings differ only on the last qubits (or only on the first ones)
+    for _ in range(max(4, nx // 6)):
+        n = rng.choice([13, 14, 16, 20, 24, 27, 33, 40])
+        base = G.rand_op(rng, n)[0]
+        def tweak(l_, where):
+            l_ = list(l_)
+            for q_ in where:
+                l_[q_] = rng.choice([c_ for c_ in 'IXYZ' if c_ != l_[q_]])
+            return tuple(l_)
+        variants = [base, tweak(base, [n - 1]), tweak(base, [n - 1]), tweak(base, [n - 2, n - 1]), tweak(base, [0]), tweak(base, [0, n - 1])]
+        terms_w = [((v_, rng.randrange(4)), complex(rng.choice([1, -1, 2, 0.5]))) for v_ in variants for _k in range(rng.choice([1, 2]))]
+        rng.shuffle(terms_w)
+        pa_ = lambda p: cmap_of(np.asarray(p.gs), np.asarray(p.ps), np.asarray(p.cs))
+        tq_ = lambda p: cmap_of(p.gs.tolist(), p.ps.tolist(), p.cs.tolist())
+        probe('PauliPolynomial.reduce', lambda: (pa_(impl.poly(terms_w).reduce()), len(impl.poly(terms_w).reduce().cs)), lambda: (tq_(tpoly(terms_w).reduce()), len(tpoly(terms_w).reduce().cs)), ('wide', n, terms_w),
+              cmp=lambda a_, b_: a_[1] == b_[1] and close_maps(a_[0], b_[0]))
+        half = len(terms_w) // 2
+        probe('PauliPolynomial.__add__', lambda: pa_(impl.poly(terms_w[:half]) + impl.poly(terms_w[half:])), lambda: tq_(tpoly(terms_w[:half]) + tpoly(terms_w[half:])), ('wide', n, terms_w), cmp=close_maps)
+    # ---- density matrices of states with nine or more active stabilizers (more than 256 group elements)
+    for n in ([9] if ctx.tier == 'quick' else [9, 10, 11]):
+        rows, r = G.rand_tableau(rng, n, rng.choice([0, 0, 1]))
+        dmp = lambda: (lambda d_: sorted((O.from_gp(g_, int(p_)), round(float(np.real(c_)) * 2 ** n, 6)) for g_, p_, c_ in zip(np.asarray(d_.gs), np.asarray(d_.ps), np.asarray(d_.cs))))(impl.state(rows, r).density_matrix)
+        dmt = lambda: (lambda d_: sorted((O.from_gp([ival(v) for v in g_], ival(p_)), round(float(complex(c_).real) * 2 ** n, 6)) for g_, p_, c_ in zip(d_.gs.tolist(), d_.ps.tolist(), d_.cs.tolist())))(tstate(rows, r).density_matrix)
+        probe('StabilizerState.density_matrix', dmp, dmt, ('many-generators', n, r, rows))
     # ---- maps with structure: Pauli layers, signed permutations (SWAP / Hadamard layers), wide registers
     def special_map(n):
         kind = rng.choice(['random', 'pauli-layer', 'signed-permutation', 'identity'])
